@@ -38,9 +38,10 @@ fn gen_kind(class: KindClass, rng: &mut Rng) -> KindSpec {
         KindClass::Fut => KindSpec::Future { expiry_ms },
         KindClass::Opt => {
             let strike = if rng.bool() {
-                rng.pick(&["35000", "0.5", "1234.5", "100", "65000", "2.25", "3500", "350000"]).to_string()
+                rng.pick(&["35000", "0.5", "1234.5", "100", "65000", "2.25", "3500", "350000", "0.175", "0.185", "0.0125", "0.00001234"]).to_string()
             } else {
-                Decimal::new(rng.range(1, 999_999), rng.range(0, 2) as u32).to_string()
+                // option chains of low-priced underlyings quote strikes with many decimals
+                Decimal::new(rng.range(1, 999_999), rng.range(0, 8) as u32).normalize().to_string()
             };
             KindSpec::Option { call: rng.bool(), exercise: rng.below(3) as u8, expiry_ms, strike }
         }
